@@ -90,7 +90,10 @@ func runC16(t *testing.T, e *worlds.Env, tier string) (bool, any) {
 			enabled[2], enabled[3] = true, true
 		}
 		var creds map[string]string
-		switch tp.Weighted("creds", 4, 2, 2, 1, 1, 2, 2) {
+		switch tp.Weighted("creds", 4, 2, 2, 1, 1, 2, 2, 2) {
+		case 7:
+			// names and passwords with outer whitespace are what they are, byte for byte
+			creds = map[string]string{"carol": "  ", "dave ": "pw", " erin": "x\n", "heidi": "pass"}
 		case 6:
 			// a user name given as a placeholder that resolves to a real name (the environment
 			// variable is set by the worker): that user's password is the configured one
@@ -170,14 +173,41 @@ func runC16(t *testing.T, e *worlds.Env, tier string) (bool, any) {
 		user, pass := "", ""
 		authVer := byte(1)
 		if serverMethod == 2 {
-			authKind := tp.Weighted("auth", 4, 2, 2, 1, 1, 1, 1)
+			authKind := tp.Weighted("auth", 4, 2, 2, 1, 1, 1, 1, 0, 2, 2)
 			if _, ok := creds["{env.VERIF_SOCKS_USER}"]; ok && tp.Prob(1, 2, "auth-frank") {
 				authKind = 7
+			}
+			if _, ok := creds["dave "]; ok && tp.Prob(1, 2, "auth-trimmed") {
+				authKind = 9
 			}
 			if _, ok := creds["{env.VERIF_NEVER_SET}"]; ok && tp.Prob(1, 2, "auth-empty-name") {
 				authKind = 6
 			}
+			pickValid := func() (string, string, bool) {
+				var names []string
+				for k := range valid {
+					names = append(names, k)
+				}
+				sort.Strings(names)
+				if len(names) == 0 {
+					return "", "", false
+				}
+				u := names[tp.Choose(len(names), "user")]
+				return u, valid[u], true
+			}
 			switch authKind {
+			case 8:
+				// a configured pair with the boundary between name and password moved
+				if u, p, ok := pickValid(); ok && len(u)+len(p) > 0 {
+					s := u + p
+					k := tp.Choose(len(s)+1, "shift-at")
+					user, pass = s[:k], s[k:]
+				}
+			case 9:
+				// a configured pair without its outer whitespace
+				if u, p, ok := pickValid(); ok {
+					user, pass = strings.TrimSpace(u), strings.TrimSpace(p)
+				}
 			case 7:
 				user, pass = "frank", tp.Pick2("frank-pass", "", "s3cret", "pw") // the resolved name with an empty / the right / another user's password
 			case 6:
